@@ -57,10 +57,10 @@ func (node *DHTNode) AddPeer(id p2p.PeerID, info []byte) bool {
 	if id == node.params.LocalID {
 		return false
 	}
+	now := node.params.Now()
 	k := id[:]
 	_, added := node.peers.Update(k, func(e Entry[[]byte], exists bool) Entry[[]byte] {
 		v := append([]byte{}, info...)
-		now := time.Now()
 		e2 := e
 		if !exists {
 			e2.Key = k
@@ -135,7 +135,7 @@ func (node *DHTNode) closerNodes(key []byte) (ret []NodeInfo) {
 
 // Put attempts to insert the key into the nodes's data cache.
 func (node *DHTNode) Put(key, value []byte, ttl time.Duration) bool {
-	createdAt := time.Now()
+	createdAt := node.params.Now()
 	expiresAt := createdAt.Add(ttl)
 	node.mu.Lock()
 	_, added := node.data.Put(key, value, createdAt, expiresAt)
@@ -175,7 +175,7 @@ func (node *DHTNode) HandlePut(from p2p.PeerID, req PutReq) (PutRes, error) {
 	if ttl > node.params.MaxDataTTL {
 		ttl = node.params.MaxDataTTL
 	}
-	createdAt := time.Now()
+	createdAt := node.params.Now()
 	expiresAt := createdAt.Add(ttl)
 	node.mu.Lock()
 	evicted, added := node.data.Put(req.Key, req.Value, createdAt, expiresAt)
